@@ -3,6 +3,7 @@ CONSTANTS Setters = {"S1", "S2", "S3"}
  MaxH = 6
  MaxG = 12
  UseCAS = TRUE
+ WithInit = FALSE
 SPECIFICATION TSpec
 POSTCONDITION Consumed
 CHECK_DEADLOCK FALSE
